@@ -516,6 +516,7 @@ func runC09(c *Ctx) {
 	}
 
 	defer runC09EndInBody(c)
+	defer runC09AmbiguousEOF(c)
 	// ---------------------------------------------------------------- C09.5
 	c.Rule("C09.5", "a missing grpc-status is an error", 1)
 	ext := p.MustFunc("grpcExtractErrorFromTrailer")
@@ -626,4 +627,61 @@ func substitutesPayload(b *ssa.BasicBlock) bool {
 		}
 	}
 	return false
+}
+
+// runC09AmbiguousEOF: C09.7 (defect D25).  io.LimitReader answers io.EOF both when its N bytes
+// were delivered and when the underlying reader ended early.  That is fine where the result is
+// consumed on the spot and the byte count is compared afterwards (the decompression bound), but
+// a LimitReader that is stored as the per-message source of an adapter makes 'the client stopped
+// sending in the middle of this message' indistinguishable from 'message complete'.
+func runC09AmbiguousEOF(c *Ctx) {
+	p := c.P
+	c.Rule("C09.7", "no io.LimitReader is installed as a stored message source (its EOF cannot tell 'complete' from 'cut short')", 0)
+	reach := p.RequestTimeReach()
+	n := 0
+	for _, fn := range p.Funcs {
+		if !p.inScope(fn) || !reach[fn] {
+			continue
+		}
+		for _, call := range Calls(fn) {
+			if !IsCallTo(call, "io.LimitReader") {
+				continue
+			}
+			cv, ok := call.(*ssa.Call)
+			if !ok {
+				continue
+			}
+			n++
+			stored := ""
+			seen := map[ssa.Value]bool{}
+			var follow func(v ssa.Value, d int)
+			follow = func(v ssa.Value, d int) {
+				if seen[v] || d > 3 {
+					return
+				}
+				seen[v] = true
+				for _, ref := range *v.Referrers() {
+					switch r := ref.(type) {
+					case *ssa.Store:
+						if fa, ok := r.Addr.(*ssa.FieldAddr); ok && r.Val == v {
+							stored = N(FieldOfAddr(fa))
+						}
+					case *ssa.MakeInterface:
+						follow(r, d+1)
+					case *ssa.ChangeInterface:
+						follow(r, d+1)
+					case *ssa.Phi:
+						follow(r, d+1)
+					}
+				}
+			}
+			follow(cv, 0)
+			c.Check(stored == "", "C09.7", FuncName(fn), "limit-reader-not-stored", call.Pos(),
+				"the bounded reader is consumed where it is made (the byte count is judged there)",
+				"an io.LimitReader is stored in field "+stored+" and read later as a message source: when the body ends before the announced length its EOF is taken for the end of the message, and a truncated message reaches the backend as complete")
+		}
+	}
+	if n == 0 {
+		c.Trivial("C09.7", "*", "limit-reader-not-stored", token.NoPos, "io.LimitReader is not used at request time")
+	}
 }
